@@ -28,7 +28,12 @@ func H_C13_empty() {
 // stored text, every + line a line of the received text, and removing the
 // shown lines from both texts leaves the same lines.
 func H_C13_render() {
-	vxrt.EnvFixed("NO_COLOR", "1")
+	// NO_COLOR mode is on when the variable is present, whatever its value (also empty)
+	if vxrt.Bool("NO_COLOR-is-set-but-empty") {
+		vxrt.EnvFixed("NO_COLOR", "")
+	} else {
+		vxrt.EnvFixed("NO_COLOR", "1")
+	}
 	vxCalibratePrettyDiff()
 	la := vxrt.Len("la", 0, vxrt.Param("lines", 3))
 	lb := vxrt.Len("lb", 0, vxrt.Param("lines", 3))
